@@ -408,6 +408,11 @@ func (s *Sim) Submit(client string, req *t_api.Request) *OpRec {
 	s.opById[id] = o
 	o.CallEv = s.nextEv()
 	s.logf("CALL %s %s %s", id, client, req)
+	if req.Kind == t_api.CompleteTask && s.snap != nil {
+		if row := s.snap.T[req.CompleteTask.Id]; row != nil && (row.State == 8 || row.State == 16) {
+			o.Meta["finishedAtCall"] = row.State // finished is absorbing: this request can only be acknowledged
+		}
+	}
 	gen := s.gen
 	s.api.EnqueueSQE(&bus.SQE[t_api.Request, t_api.Response]{
 		Id:         id,
@@ -474,6 +479,7 @@ func (s *Sim) Drain(dt int64, max int) bool {
 type advAIO struct {
 	sim     *Sim
 	closing bool // every submission fails at once (used to let in-flight coroutines run to their end)
+	fromWorker int // completions enqueued by subsystem workers themselves (the sender)
 	pending []*pendSQE
 	cq      []*heldCQE
 	seq     int
@@ -556,6 +562,7 @@ func (a *advAIO) EnqueueSQE(sqe *bus.SQE[t_aio.Submission, t_aio.Completion]) {
 }
 
 func (a *advAIO) EnqueueCQE(cqe *bus.CQE[t_aio.Submission, t_aio.Completion]) {
+	a.fromWorker++
 	a.push(cqe)
 }
 
@@ -835,8 +842,18 @@ func (a *advAIO) processOther(p *pendSQE) {
 		}
 	case t_aio.Sender:
 		before := len(s.sent)
+		cq0 := a.fromWorker
 		s.sendw.Process(p.sqe) // enqueues its CQE through a.EnqueueCQE
 		t := p.sqe.Submission.Sender.Task
+		if n := a.fromWorker - cq0; n != 1 {
+			// the transports used here report synchronously, so the one completion of this hand-off exists by now; without
+			// it the dispatch cycle waits for ever and nothing is dispatched again, with two the second answers a stranger
+			out := "before reaching a transport"
+			if len(s.sent) > before {
+				out = "transport outcome: " + s.sent[len(s.sent)-1].Outcome
+			}
+			s.mon.violate("C08,C11", "dispatch:handoff-completions", fmt.Sprintf("the sender worker produced %d completions for the hand-off of (%s,%d) (%s): a failed hand-off must be reported so that it is retried", n, t.Id, t.Counter, out))
+		}
 		if len(s.sent) == before {
 			// the worker failed before reaching a plugin
 			s.sent = append(s.sent, &SentMsg{Tick: s.now, Ev: s.nextEv(), Plugin: "", Outcome: "error", TaskId: t.Id, Counter: t.Counter})
